@@ -66,6 +66,9 @@ type Step struct {
 	Query *QueryStep `json:"query,omitempty"`
 	// ica world
 	ICA *ICAEvent `json:"ica,omitempty"`
+	// simulate: the dry run is a client's prediction of the state after the first messages of the tx it
+	// is building (the later messages are built from that prediction), not a gas estimation
+	SimSnap bool `json:"sim_snap,omitempty"`
 	// Alt: what replica Q (C10) does differently at this step
 	Alt *AltDirective `json:"alt,omitempty"`
 }
